@@ -55,7 +55,7 @@ var InstrTargets = []instr.Target{
 	{File: "pkg/flowcontrols/remote/flowcontrol_wrapper.go", All: true, Funcs: []string{"localWrapper.Sync", "meterWrapper.TryAcquire", "meterWrapper.Release"}},
 	{File: "pkg/flowcontrols/remote/global_flowcontrol.go", Funcs: []string{"maxInflightWrapper.SetLimit", "maxInflightWrapper.Resize", "maxInflightWrapper.resize", "maxInflightWrapper.TryAcquire", "maxInflightWrapper.Release", "tokenBucketWrapper.SetLimit", "tokenBucketWrapper.Resize", "tokenBucketWrapper.TryAcquire"}},
 	{File: "pkg/flowcontrols/limiter.go", All: true, Funcs: []string{"upstreamLimiter.Load", "upstreamLimiter.syncLocalFlowControls"}},
-	{File: "pkg/clusters/clusterinfo.go", Funcs: []string{"endpointPickStrategy.Pop", "ClusterInfo.MatchAttributes", "ClusterInfo.Sync"}},
+	{File: "pkg/clusters/clusterinfo.go", All: true, Funcs: []string{"endpointPickStrategy.Pop", "ClusterInfo.MatchAttributes", "ClusterInfo.Sync", "ClusterInfo.syncEndpoints", "ClusterInfo.addOrUpdateEndpoint"}},
 	{File: "pkg/gateway/controllers/upstream_controller.go", Funcs: []string{"UpstreamClusterController.syncUpstreamCluster", "UpstreamClusterController.AddOrUpdateForServerNames", "UpstreamClusterController.checkServerNameConflict", "UpstreamClusterController.checkUpstreamServerNameConflict", "UpstreamClusterController.DeleteForServerNames"}},
 	{File: "pkg/ratelimiter/limiter/ratelimter.go", Funcs: []string{"rateLimiter.UpdateRateLimitConditionStatus", "rateLimiter.UpstreamConditionHandler", "rateLimiter.calculateUpstreamCondition", "rateLimiter.deleteCondition"}},
 	// the process id is part of every gateway instance's name; names are hashed
@@ -197,8 +197,9 @@ func init() {
 		Batches: []Batch{
 			{World: "gw", Profile: "c03-nofault", Quick: 60, Thor: 3000, PerProc: 1, FaultFree: true},
 			{World: "gw", Profile: "c03-faults", Quick: 140, Thor: 7000, PerProc: 1},
+			{World: "gw", Profile: "c03p-preempt-faults", Quick: 150, Thor: 8000, PerProc: 1},
 		},
-		Rule: "each run = one cluster with 1-4 endpoints and two verb-distinguished policies with drawn subsets; 15-70 drawn steps of: client request (held at the stub or not), release of a held request (possibly reset/5xx/truncated), spec update (disable/enable, remove/add server, change a subset), health/connectivity change of a stub (500, hang, reset, refused), clock advance (0.2-11 s); distinct = distinct trace hash; non-trivial = at least one request forwarded AND at least one spec or health change",
+		Rule: "each run = one cluster with 1-4 endpoints and two verb-distinguished policies with drawn subsets; 15-70 drawn steps of: client request (held at the stub or not), release of a held request (possibly reset/5xx/truncated), spec update (disable/enable, remove/add server, change a subset), health/connectivity change of a stub (500, hang, reset, refused), clock advance (0.2-11 s); distinct = distinct trace hash; non-trivial = at least one request forwarded AND at least one spec or health change. Profile c03p-preempt*: the same histories with preemption fuzzing (the gateway's own goroutines give up the processor at one in three statements of upstream_controller.go and clusterinfo.go; a PRNG of the run decides)",
 		Real: gwReal, Stub: gwStub, Assume: gwAssume,
 	})
 	reg(&Check{
@@ -237,8 +238,9 @@ func init() {
 		Title: "Removal: deleted clusters/endpoints get no traffic; in-flight requests are cut",
 		Batches: []Batch{
 			{World: "gw", Profile: "c15-removal", Quick: 150, Thor: 8000, PerProc: 1, FaultFree: true},
+			{World: "gw", Profile: "c15p-preempt", Quick: 100, Thor: 6000, PerProc: 1},
 		},
-		Rule: "each run = cluster alpha (endpoints e0,e1 behind verb-distinguished policies) and bystander cluster beta; 6-12 requests in drawn phases of their life (parked in TokenReview before the pick, held at the upstream before headers, mid-stream of a chunked long-running response with drawn progress), then one drawn removal (delete the cluster, remove e0, replace e0 by a new endpoint); afterwards: victims must end at the client within 2 simulated seconds without further stimulus, the removed endpoint's server must see the cancellation, new requests get 503 / never reach the removed endpoint, bystander streams receive their next chunk, probing of the removed endpoint stops and of the others continues; distinct = distinct trace hash; non-trivial = at least one request was in flight to what was removed. Before the requests are sent alpha goes through 0-2 earlier versions in which one of its endpoints is disabled and enabled again (so that endpoints about to be removed have been through the update path, not only the create path)",
+		Rule: "each run = cluster alpha (endpoints e0,e1 behind verb-distinguished policies) and bystander cluster beta; 6-12 requests in drawn phases of their life (parked in TokenReview before the pick, held at the upstream before headers, mid-stream of a chunked long-running response with drawn progress), then one drawn removal (delete the cluster, remove e0, replace e0 by a new endpoint); afterwards: victims must end at the client within 2 simulated seconds without further stimulus, the removed endpoint's server must see the cancellation, new requests get 503 / never reach the removed endpoint, bystander streams receive their next chunk, probing of the removed endpoint stops and of the others continues; distinct = distinct trace hash; non-trivial = at least one request was in flight to what was removed. Before the requests are sent alpha goes through 0-2 earlier versions in which one of its endpoints is disabled and enabled again (so that endpoints about to be removed have been through the update path, not only the create path). Profile c15p-preempt*: the same histories with preemption fuzzing (the gateway's own goroutines give up the processor at one in three statements of upstream_controller.go and clusterinfo.go; a PRNG of the run decides)",
 		Real: gwReal, Stub: gwStub, Assume: append([]string{"'promptly' is read as 2 simulated seconds; 'probing stops' as no probe later than one interval (5 s) plus 1.5 s after the removal"}, gwAssume...),
 	})
 	reg(&Check{
@@ -256,8 +258,9 @@ func init() {
 		Title: "Hot reload converges to the latest object's config, whatever the history",
 		Batches: []Batch{
 			{World: "gw", Profile: "c11-history", Quick: 200, Thor: 10000, PerProc: 1},
+			{World: "gw", Profile: "c11p-preempt", Quick: 150, Thor: 8000, PerProc: 1},
 		},
-		Rule: "each run = 1-3 clusters, 6-40 steps of: a new object version mutating one hot-reloadable section (servers/disabled, policies incl. subsets, schema references and log modes, flow-control schemas incl. type/strategy/size, feature-gate annotation added/changed/gate removed/annotation removed/annotations nil, logging, serving certificate and client CA, server names from a colliding pool) through the real admission plugin, admission lister or controller informer held back and released (watch_delay: name conflicts reach the controller and are requeued), time advancing across the 5 s requeues, delete and re-create; at final quiescence a fresh twin gateway is built in the same bubble from the latest objects only and compared per cluster through public accessors and routing probes; distinct = distinct trace hash; non-trivial = at least 3 versions applied. One mutation in four takes one aspect back to the value it had before its last change (A -> B -> A histories per aspect)",
+		Rule: "each run = 1-3 clusters, 6-40 steps of: a new object version mutating one hot-reloadable section (servers/disabled, policies incl. subsets, schema references and log modes, flow-control schemas incl. type/strategy/size, feature-gate annotation added/changed/gate removed/annotation removed/annotations nil, logging, serving certificate and client CA, server names from a colliding pool) through the real admission plugin, admission lister or controller informer held back and released (watch_delay: name conflicts reach the controller and are requeued), time advancing across the 5 s requeues, delete and re-create; at final quiescence a fresh twin gateway is built in the same bubble from the latest objects only and compared per cluster through public accessors and routing probes; distinct = distinct trace hash; non-trivial = at least 3 versions applied. One mutation in four takes one aspect back to the value it had before its last change (A -> B -> A histories per aspect). Profile c11p-preempt*: the same histories with preemption fuzzing (the gateway's own goroutines give up the processor at one in three statements of upstream_controller.go and clusterinfo.go; a PRNG of the run decides)",
 		Real: gwReal, Stub: gwStub, Assume: append([]string{"client connection settings are excluded (fixed at creation, as the statement says)", "runs whose final objects claim one name twice are not compared (which cluster serves it is C10's business)"}, gwAssume...),
 	})
 	reg(&Check{
